@@ -5,11 +5,15 @@ package config
 
 import "time"
 
+var verifNetTimeoutValue time.Duration
+
+func verifNetTimeout() time.Duration { return verifNetTimeoutValue }
+
 // VerifSetNetTimeout replaces the network time-out returned by NetTimeout
 // (d <= 0 restores the built-in 45 s), so that time-out scenarios run quickly.
 func VerifSetNetTimeout(d time.Duration) {
-	if d <= 0 {
-		d = time.Second * 45
+	if d < 0 {
+		d = 0
 	}
-	netTimeout = d
+	verifNetTimeoutValue = d
 }
